@@ -7,6 +7,7 @@ import (
 	"runtime"
 	"runtime/debug"
 	"sort"
+	"strconv"
 	"strings"
 
 	"github.com/gookit/rux"
@@ -100,6 +101,11 @@ func dvalSx(v any) Sx {
 	case int:
 		return L(A("n"), I(x))
 	case string:
+		if strings.HasPrefix(x, "verif-panic:") {
+			if n, err := strconv.Atoi(x[len("verif-panic:"):]); err == nil {
+				return L(A("p"), I(n))
+			}
+		}
 		return L(A("s"), S(x))
 	case []string:
 		c := append([]string{}, x...)
@@ -112,6 +118,9 @@ func dvalSx(v any) Sx {
 	case runtime.Error:
 		if strings.Contains(x.Error(), "index out of range") {
 			return L(A("p"), A("idx"))
+		}
+		if strings.Contains(x.Error(), "assignment to entry in nil map") {
+			return L(A("p"), I(lastSentinelPanic))
 		}
 		return L(A("p"), A("rt"))
 	default:
@@ -155,16 +164,24 @@ func rpRunOp(c *rux.Context, op Sx) {
 		c.AbortThen()
 	case "abs":
 		c.AbortWithStatus(op.List[1].Int())
+	case "absm": // with a message: http.Error, then Abort
+		c.AbortWithStatus(op.List[1].Int(), "denied")
 	case "isab":
 		rec.trace = append(rec.trace, L(A("ab"), B(c.IsAborted())))
 	case "panic":
 		// the recovered value must come through unchanged whatever its kind: a struct, an error, net/http's sentinel
-		switch n := op.List[1].Int(); n % 4 {
+		switch n := op.List[1].Int(); n % 6 {
 		case 1:
 			lastSentinelPanic = n
 			panic(http.ErrAbortHandler)
 		case 2:
 			panic(&verifErr{n})
+		case 4: // a plain string
+			panic(fmt.Sprintf("verif-panic:%d", n))
+		case 5: // a run-time error of the handler's own (a write to a nil map)
+			lastSentinelPanic = n
+			var m map[int]int
+			m[n] = 1
 		default:
 			panic(verifPanic{n})
 		}
@@ -386,6 +403,21 @@ func (e *rpEnv) stmts(ss []Sx) {
 					rt.Use(e.handlers(later)...)
 				}
 				e.routes = append(e.routes, rt)
+				continue
+			}
+			if len(s.List) > 7 && s.List[7].Atom == "any" {
+				e.r.Any(s.List[2].Str(), main, e.handlers(s.List[4].Lst())...)
+				// (Any returns nothing: the new route is the one the router did not list before)
+				known := map[*rux.Route]bool{}
+				for _, x := range e.routes {
+					known[x] = true
+				}
+				e.r.IterateRoutes(func(x *rux.Route) {
+					if !known[x] {
+						known[x] = true
+						e.routes = append(e.routes, x)
+					}
+				})
 				continue
 			}
 			if len(s.List) > 7 && (s.List[7].Atom == "pre" || s.List[7].Atom == "attach") {
